@@ -103,11 +103,23 @@ def run_history(seed, env, res, probes):
     term_image.enable_queries()
     term_image.set_cell_ratio(0.5)
     probes.reset()
+    sizes_seen = []
     steps = rnd.randint(5, 40)
     for step in range(steps):
-        op = rnd.choice(["resize", "resize", "pixels", "swap_on", "swap_off", "q_on", "q_off", "ratio", "xt", "read", "read", "read", "read_ratio", "probe", "probe", "read_colours", "read_name"])
+        op = rnd.choice(["resize", "resize", "resize_back", "resize_back", "pixels", "swap_on", "swap_off", "q_on", "q_off", "ratio", "xt", "read", "read", "read", "read_ratio", "probe", "probe", "read_colours", "read_name"])
         ops.append(op)
-        if op == "resize":
+        if m.term[:2] not in sizes_seen:
+            sizes_seen.append(m.term[:2])
+        if op == "resize_back" and not sizes_seen:
+            op = ops[-1] = "resize"
+        if op == "resize_back":
+            # back to a size in cells the terminal had before, with whatever pixel size
+            cols, rows = rnd.choice(sizes_seen)
+            zero = rnd.random() < 0.3
+            cw, ch = rnd.randint(1, 30), rnd.randint(1, 40)
+            m.term = (cols, rows, 0 if zero else cols * cw, 0 if zero else rows * ch)
+            env.set_winsize(*m.term)
+        elif op == "resize":
             cols, rows = rnd.randint(1, 200), rnd.randint(1, 60)
             zero = rnd.random() < 0.3
             cw, ch = rnd.randint(1, 30), rnd.randint(1, 40)
